@@ -249,16 +249,16 @@ type vcfg struct {
 }
 
 var (
-	tokStr   = []string{"", "x", "y"}
-	audLists = [][]string{nil, nil, nil, {"x"}, {"y", "x"}, {"y", "z"}}
+	tokStr   = []string{"", "x", "y", ""} // index 0 = absent; index 3 = PRESENT and empty (an empty string is a value, not an absence)
+	audLists = [][]string{nil, nil, nil, {"x"}, {"y", "x"}, {"y", "z"}, nil, {"", "x"}} // 6: single audience "", 7: a list holding ""
 	skews    = []time.Duration{0, time.Second, 10 * time.Minute, 1500 * time.Millisecond, 10*time.Minute + 1}
 	nowFracs = []int{0, 500_000_000, 999_999_999}
 )
 
 const (
-	nTok, nAudTok = 3, 6
-	nFieldV       = 4 // expect none, ignore, expect "x", INVALID ignore+expect
-	nAudV         = 6 // ... , expect "x" via deprecated ExpectedAudiences, INVALID ignore+expect, INVALID both expectation fields
+	nTok, nAudTok = 4, 8
+	nFieldV       = 5 // expect none, ignore, expect "x", INVALID ignore+expect, expect ""
+	nAudV         = 7 // ... , expect "x" via deprecated ExpectedAudiences, INVALID ignore+expect, INVALID both expectation fields, expect ""
 	nExp          = 9
 	nNbf          = 6
 	nIat          = 5
@@ -335,6 +335,8 @@ func validators(x *h.X, c vcfg, now time.Time) (*jwt.Validator, ref.JWTValidator
 	case 3:
 		o.IgnoreTypeHeader, rv.IgnoreTyp = true, true
 		o.ExpectedTypeHeader, rv.ExpectedTyp = sp("x"), sp("x")
+	case 4:
+		o.ExpectedTypeHeader, rv.ExpectedTyp = sp(""), sp("")
 	}
 	switch c.issV {
 	case 1:
@@ -344,6 +346,8 @@ func validators(x *h.X, c vcfg, now time.Time) (*jwt.Validator, ref.JWTValidator
 	case 3:
 		o.IgnoreIssuer, rv.IgnoreIss = true, true
 		o.ExpectedIssuer, rv.ExpectedIss = sp("x"), sp("x")
+	case 4:
+		o.ExpectedIssuer, rv.ExpectedIss = sp(""), sp("")
 	}
 	bothAud := false
 	switch c.audV {
@@ -359,6 +363,8 @@ func validators(x *h.X, c vcfg, now time.Time) (*jwt.Validator, ref.JWTValidator
 	case 5:
 		o.ExpectedAudience, o.ExpectedAudiences = sp("x"), sp("x")
 		bothAud = true
+	case 6:
+		o.ExpectedAudience, rv.ExpectedAud = sp(""), sp("")
 	}
 	v, err := jwt.NewValidator(o)
 	x.Eval(1)
@@ -387,6 +393,8 @@ func rawJWT(c vcfg) (*jwt.RawJWTOptions, string) {
 	case c.audTok == 0:
 	case c.audTok < 3:
 		o.Audience = sp(tokStr[c.audTok])
+	case c.audTok == 6:
+		o.Audience = sp("")
 	default:
 		o.Audiences = audLists[c.audTok]
 	}
@@ -796,13 +804,20 @@ func roundTripSection(x *h.X) {
 
 	// key ids with leading zero bytes: the key-id-derived kid is the FIXED 4-byte big-endian id, also through JWK
 	// export / import (a minimal-length integer encoding would strip them)
-	idsA := []uint32{0x01020304, 0x0000beef}
+	idsA := []uint32{0x01020304, 0x0000beef, 0} // 0 is a key id like any other ("no id requirement" is a property of the kid strategy, not of the number)
 	if x.Thorough() {
 		idsA = []uint32{0x01020304, 0x0000beef, 0, 0x00ffffff, 0xffffffff}
 	}
 	idA := h.Pick(x, "key-id", idsA)
 	cfg += fmt.Sprintf(" idA=%#x", idA)
-	A, err := buildKey(alg, 0, mode, idA, "kid-A")
+	// custom kids: the empty string is a kid like any other ("kid":"" is written, a token with another kid is
+	// refused) - also after the keyset went through its serialised form, where "" and "no kid" are easily confused
+	kidA := "kid-A"
+	if mode == ref.JWTKidCustom {
+		kidA = h.Pick(x, "custom-kid", []string{"kid-A", ""})
+		cfg += fmt.Sprintf(" kidA=%q", kidA)
+	}
+	A, err := buildKey(alg, 0, mode, idA, kidA)
 	if err != nil {
 		x.Fail("construct", "%s: key A: %v", cfg, err)
 		return
